@@ -131,3 +131,31 @@ package sm3
 //@ ensures w7 [from -]: be(out[28:32]) == sm3.h[7]
 //@ ensures digest [from w0, w1, w2, w3, w4, w5, w6, w7, hfin]: be(out[0:32]) == sm3_chainI(S, sm3_nblocks(L))
 //@ assigns *sm3, out[0:32]
+
+// Sum: the receiver is unchanged (the digest is computed on a copy); the result is `in`
+// followed by the digest of the padded stream.
+//@ func (*sm3.SM3).Sum
+//@ mode int
+//@ prune_branches
+//@ logical S bytes
+//@ logical L int
+//@ requires inv: sm3inv(sm3, S, L) && sm3.nx < 64 && sm3.len == L && L < pow2(59)
+//@ requires pad: sm3_padded(S, L)
+//@ case room: cap(in) - len(in) >= 32
+//@ case grow: cap(in) - len(in) < 32
+//@ ensures len: len(result) == len(in) + 32
+//@ ensures prefix: forall(i, 0, len(in), result[i] == old(in[i]))
+//@ ensures digest: be(result[len(in):len(in)+32]) == sm3_chainI(S, sm3_nblocks(L))
+//@ returns_if cap(in) - len(in) >= 32 : in[0:len(in)+32]
+//@ assigns in[len(in):cap(in)]
+
+//@ func sm3.SumSM3
+//@ mode int
+//@ logical S bytes
+//@ requires data: forall(i, 0, len(data), data[i] == S[i]) && len(data) < pow2(59)
+//@ requires pad: sm3_padded(S, len(data))
+//@ inst (*sm3.SM3).Reset : S = S
+//@ inst (*sm3.SM3).Write : S = S; L = 0
+//@ inst (*sm3.SM3).checkSum : S = S; L = len(data)
+//@ ensures digest: be(result[0:32]) == sm3_chainI(S, sm3_nblocks(len(data)))
+//@ assigns nothing
